@@ -21,7 +21,7 @@ FLOORS = {'quick': {'route-eval': 3000, 'ctrlpts2d': 300, 'manager': 300, 'flip-
                     'extract-construct': 200, 'sweep': 60},
           'thorough': {'route-eval': 30000, 'extract-construct': 2000}}
 MANDATORY_TAGS = ['surface', 'volume', 'rational', 'construct:u', 'construct:v', 'construct:w', 'cs:u', 'cs:v', 'sweep:curve',
-                  'sweep:surface', 'extract:uv', 'extract:uw', 'extract:vw', 'transpose:trimmed', 'transpose:trim-container']
+                  'sweep:surface', 'extract:uv', 'extract:uw', 'extract:vw', 'transpose:trimmed', 'transpose:trim-container', 'set_ctrlpts:inconsistent-count']
 TECHNIQUE = ("runtime monitoring: behavioural oracle - every route of putting a harness-owned control net into / getting it out of "
              "a shape is judged by exact evaluation against the reference model of that net")
 LEVEL_TEXT = ("Every layout-dependent API route the workload exercises is judged by evaluating the resulting shape against the "
@@ -121,6 +121,25 @@ def check_surface(case, ctx):
     s1.set_ctrlpts(copy.deepcopy(flat), nu, nv)
     finish(s1)
     if not judge(ctx, rng, s1, S, 'route/set_ctrlpts', 'surface built with set_ctrlpts(flat v-fastest list) is not the harness net'):
+        return
+    # a flat list whose length is not size_u * size_v cannot be laid out: it must be refused, leaving the surface as it was
+    from geomdl.exceptions import GeomdlException
+    extra = rng.choice([-2, -1, 1, 2, nv])
+    bad = (copy.deepcopy(flat) + [list(flat[0])] * max(extra, 0))[:len(flat) + extra]
+    before_ = G.snapshot(s1)
+    ctx.tag('set_ctrlpts:inconsistent-count')
+    try:
+        s1.set_ctrlpts(bad, nu, nv)
+    except (ValueError, GeomdlException):
+        ctx.check(G.snapshot(s1) == before_, 'route/set_ctrlpts-refusal-destroys', 'set_ctrlpts(%d points, %d, %d) was refused but the surface lost / '
+                  'changed its control points' % (len(bad), nu, nv), what='ctrlpts2d')
+    except IndexError:
+        ctx.fail('route/set_ctrlpts-inconsistent-count', 'set_ctrlpts(%d points, %d, %d) fails with a bare IndexError after the surface was already '
+                 'modified' % (len(bad), nu, nv))
+        return
+    else:
+        ctx.fail('route/set_ctrlpts-inconsistent-count', 'set_ctrlpts(%d points, %d, %d) accepted a list that is not size_u * size_v long: flat list '
+                 'has %d points, the 2-D grid %d' % (len(bad), nu, nv, len(s1.ctrlpts), sum(len(r_) for r_ in s1.ctrlpts2d)))
         return
     # ctrlpts2d getter
     g2 = s1.ctrlpts2d
